@@ -168,14 +168,25 @@ def gen_loop_case(rng, max_seg=40):
         base = rng.choice([0.001, 0.01, 0.1, 0.1, 0.4, 1.2])
         return [round(base * rng.uniform(0.5, 2.0), 4) if rng.random() < 0.7 else base for _ in range(k)]
     lossless = rng.random() < 0.25
+    if rng.random() < 0.08:
+        # a long-delay path (satellite hop, or a model that counts in milliseconds) with a matching initial estimate
+        rtt = rng.choice([100.0, 150.0, 400.0])
+        far = rng.choice([20.0, 35.0, 60.0])
+        slow = lambda: [round(far * rng.uniform(0.8, 1.2), 3) for _ in range(rng.choice([1, 2, 3]))]
+        lossless = rng.random() < 0.7
+    else:
+        slow = None
     span = nseg + 12
 
     def drops():
         if lossless:
             return []
         return sorted(rng.sample(range(span), min(span, rng.choice([0, 1, 1, 2, 3, 4, 6]))))
-    return {'kind': 'loop', 'cc': cc, 'nseg': nseg, 'rtt_estimate': rtt, 'ddelays': delays(), 'adelays': delays(),
-            'ddrops': drops(), 'adrops': drops()}
+    c = {'kind': 'loop', 'cc': cc, 'nseg': nseg, 'rtt_estimate': rtt, 'ddelays': (slow or delays)(), 'adelays': (slow or delays)(),
+         'ddrops': drops(), 'adrops': drops()}
+    if cc == 'reno' and rng.random() < 0.2:
+        c['ccmss'] = rng.choice([100, 256, 1000, 1460])      # TCPReno(mss=...): a legal, unusual configuration
+    return c
 
 
 def enum_loop_cases(max_seg, small=False):
@@ -209,16 +220,22 @@ def run_loop_impl(case):
                    on_put=lambda a: sinklog.append((a.packet_id, a.ack, copy.deepcopy(sink.recv_buffer))))
     sink.out = ackpath
     datapath = Path(env, sink, case['ddelays'], case['ddrops'])
-    cc = make_cc(case['cc'])
-    sr = SenderRun(env, case['cc'], cc, case['rtt_estimate'], case['nseg'] * MSS, datapath)
+    seg = seg_of(case)
+    cc = make_cc(case['cc'], mss=seg, cwnd=max(512, seg))
+    sr = SenderRun(env, case['cc'], cc, case['rtt_estimate'], case['nseg'] * seg, datapath)
     late.target = sr
     ended = sr.run()
     return sr, sink, ended, sinklog, datapath, ackpath
 
 
+def seg_of(case):
+    """the MSS the congestion controller of the case is built with (the flow is a whole number of such segments)"""
+    return case.get('ccmss', MSS) if case['cc'] == 'reno' else MSS
+
+
 def loop_oracle(case, sr, sink, ended):
     fails = []
-    size = case['nseg'] * MSS
+    size = case['nseg'] * seg_of(case)
     if sr.error and sr.error[0] != 'budget':
         x = sr.error[1]
         fails.append({'what': f'the run raised {type(x).__name__}: {x} (during {sr.error[0]})',
@@ -250,16 +267,17 @@ def loop_oracle(case, sr, sink, ended):
                       'signature': 'loop-sink-incomplete'})
     if not case['ddrops'] and not case['adrops']:
         # loss-free: if every segment's ACK came back before its timer expired, nothing is sent twice
+        # "round-trip time below the sender's current RTO": the RTO is the public attribute `rto` as it stood when the
+        # segment was sent (not the expiry the implementation happened to arm its timer with)
         expiry, acked_at = {}, {}
         for r in sr.records:
             if r['tag'] == 'W':
-                exp = dict(r['after']['timers'])
                 for q, sz, t in r['tx']:
-                    expiry.setdefault(q, exp.get(q))
+                    expiry.setdefault(q, r['now'] + r['after']['rto'])
             elif r['tag'] == 'A':
                 pid = int(r['line'].split()[4])
                 acked_at.setdefault(pid, r['now'])
-        timely = all(q in acked_at and expiry[q] is not None and acked_at[q] < expiry[q] for q in expiry)
+        timely = all(q in acked_at and acked_at[q] < expiry[q] for q in expiry)
         seqs = [q for q, sz, t in sr.tx.log]
         if timely and len(seqs) != len(set(seqs)):
             dup = [q for q, c in collections.Counter(seqs).items() if c > 1]
@@ -340,7 +358,7 @@ def run(ctx):
     for i, c in loops:
         runs[i] = run_loop_impl(c)
     smodel = model_batch('tcpsender', [runs[i][0].text(i) for i, c in loops], 300)
-    kmodel = model_batch('tcpsink', [f'CASE {i}\n' + '\n'.join(f'P {pid} {MSS}' for pid, a, b in runs[i][3]) + '\nEND'
+    kmodel = model_batch('tcpsink', [f'CASE {i}\n' + '\n'.join(f'P {pid} {runs[i][0].sender.mss}' for pid, a, b in runs[i][3]) + '\nEND'
                                      for i, c in loops], 500)
     lines_compared = 0
     for i, c in loops:
@@ -382,7 +400,7 @@ def run(ctx):
             disagreements.append({'case': clean(c), 'detail': f'sink (in loop) arrival {d[0]}: impl `{d[1]}` model `{d[2]}`',
                                   'impl': slines[:60], 'model': (km or [])[:60]})
         # the sink oracle applies inside the loop as well
-        for f in sink_oracle({'arrivals': [[pid, MSS] for pid, a, b in sinklog]}, [a for pid, a, b in sinklog], None):
+        for f in sink_oracle({'arrivals': [[pid, sr.sender.mss] for pid, a, b in sinklog]}, [a for pid, a, b in sinklog], None):
             f.update(case=clean(c), trace=slines[:80])
             oracle_failures.append(f)
         for f in loop_oracle(c, sr, sink, ended):
